@@ -188,6 +188,167 @@ CHECKS["C05"] = dict(
     note="Trusted: TLC, mpmath expm/logm at 60 digits, exactness of IEEE arithmetic on the lattice. Log-scales with "
          "0<|sigma|<1e-3 are left to C01 (known sim3 small-sigma band). Between sampled directions of a cell nothing is claimed.")
 
+CHECKS["C16"] = dict(
+    cat="model_checking", ref="DESIGN.md §5 C16",
+    technique="TLA+ spec Imu.tla (symbolic integrator state machine over words/formal sums, instantiating Scan.tla for both "
+              "per-call scans) and ImuExact.tla (exact dyadic/Hurwitz sub-model) model-checked by TLC; spec->code table of "
+              "all chunkings (ImuGen.tla) replayed on real integrators; trace validation (ImuTrace.tla) with integer ulp "
+              "measures and exact recomputation on the lattice",
+    text="TLC enumerates every chunking (composition) of every stream length F<=8 (quick, 42.6k states) / F<=12 (thorough, "
+         "901k states) x input rank (H)/(F,H)/(B,F,H) x reset flag x known/integrated rotation of a symbolic integrator "
+         "structured like forward (rank normalisation, scan rounds on len+1 rotation elements, integrate, predict, scan "
+         "rounds on the len+1 transition matrices, buffer update) and checks in every state that buffers and every output "
+         "row equal the fold of the documented recursion, the covariance equals the fold of C<-ACA^T+Q, and Scan's "
+         "invariants hold for every scan length; an exact dyadic sub-model (zero rate, Hurwitz rotations, dyadic gravity) "
+         "shows chained preintegration+composition = recursion on the state for all streams of a lattice box. Binding: "
+         "all 2^(F-1) chunkings for F<=8/10 tabulated by TLC plus sampled chunkings for every F in 1..40 and up to 200 are "
+         "replayed on real integrators (B=1..4, float32/64, zero/non-zero gravity, known/integrated rotation, random "
+         "initial state); per call TLC judges ulp distances to a fresh one-shot call over the frames the spec prescribes, "
+         "to an independent long-double recursion (gravity 0), rank equivalence, buffers, covariance symmetry/PSD "
+         "(64 ulps per folded frame); lattice runs are recomputed by TLC from logged integers and compared by equality.",
+    note="Found: propagate_cov multiplies the transition matrices in the wrong order (cumprod left=True), so the carried "
+         "covariance depends on the chunking (keys num/chunk_cov/carry/f32|f64; one-argument repair in notes/C16.fix.diff; "
+         "TLC reproduces it as design mutant CovLeft=TRUE). Not decided: recursion clause with non-zero gravity and "
+         "integrated rotation (no documented frame index; chunk invariance only), covariance values (only symmetry/PSD "
+         "and chunk invariance), init_state argument, prop_cov=False, per-call toggling of reset. Docstring/code "
+         "discrepancies (R_j = DeltaR*R_i order, +g*dt terms, DeltaR_ik index in A) are recorded, not judged.",
+)
+
+CHECKS["C13"] = dict(
+    cat="model_checking", ref="DESIGN.md §5 C13",
+    technique="TLA+ spec Kalman.tla (KF, EKF-as-documented, UKF-as-documented with factor data, PSD/Loewner predicates "
+              "over exact rationals; KalmanResample.tla index law) model-checked by TLC on enumerated integer systems; "
+              "KalmanGen.tla tabulates exact posteriors and re-seeded runs (spec->code); KalmanTrace.tla recomputes the "
+              "posterior and judges integer ulp distances of real EKF/UKF/PF executions (code->spec)",
+    text="TLC checks on every integer system of a lattice (n,p<=2, every A with entries -1..1, non-diagonal factors of "
+         "P and P-, n+k in {1,2,3,5} quick / 1..6 thorough, mean/nonlinear families, re-seeded runs) that UKF = KF and "
+         "EKF = KF, that EKF on polynomial systems is the Kalman recursion of the linearisation at the prior mean with "
+         "the innovation at the predicted state, that posteriors are symmetric PSD and <= the prior in the Loewner order, "
+         "and the resampling index law on every small weight vector. Every tabulated instance and run (quick 1113 rows + "
+         "60 runs of 5 steps; thorough runs up to 50 steps) is executed on real EKF and UKF objects (NLS subclasses) and "
+         "the returned mean/covariance are judged by TLC against its own fractions (<= 65536 eps units; repaired tree "
+         "<= 187). Random SPD data (dims 1..6, 6 orders of magnitude, linear and nonlinear) give symmetry/PSD measures "
+         "for EKF, UKF(k>=0), PF and a distance to a 60-digit Kalman recursion; PF estimates are held to a 7-sigma band "
+         "around the exact mean of the documented particle model for N = 1e3..1e6; resample_particles is compared with "
+         "the index law.",
+    note="Trusted: TLC; exactness of integer inputs in float64; the harness' Fraction/mpmath distance computations "
+         "(dims > 2 use a harness-computed 60-digit reference, Mode R); the closed-form PF estimator variance (floats; "
+         "statistical clause, fixed seeds). Instances with det(C P- C' + R) > 20000 are skipped (32-bit TLC). UKF on "
+         "nonlinear systems is judged for symmetry/PSD only. Found and repaired: EKF innovation point, UKF rows vs "
+         "columns, UKF mixed sigma sets, PF likelihood at the pre-transition particle (notes/C13.fix.diff).")
+
+CHECKS["C10"] = dict(
+    cat="model_checking", ref="DESIGN.md §5 C10",
+    technique="TLA+ specs Solvers.tla (Cholesky PD/raise by leading minors and adj(A)b/det(A), Decell pseudo-inverse with "
+              "least-squares/min-norm predicates, exact-rational CG loop) and BsrMerge.tla (two-pointer merge-join of "
+              "bsr_bsc_matmul) model-checked by TLC; spec->code tables (SolversGen, BsrMergeGen) run through the real "
+              "Cholesky/PINV/LSTSQ/CG/bsr_bsc_matmul; every recorded call judged by TLC (SolversTrace, BsrMergeTrace)",
+    text="TLC checks on every symmetric integer matrix of order<=3 (entries -2..2) that the leading-minor classification "
+         "is positive definiteness and that adj(A)b/det(A) solves; on every m x n matrix (m,n<=3, entries -1..1, all ranks) "
+         "that pinv(A)b satisfies the normal equations and is orthogonal to the null space; that the exact-rational "
+         "transcription of CG.forward (stopping rule, guess, preconditioner, b=0 shortcut, maxiter=10n) terminates within n "
+         "updates with zero residual and returns adj(A)b/det(A) on every enumerated SPD instance; and that the merge-join "
+         "of bsr_bsc_matmul visits exactly {(i,j,k): A_ik and B_kj present} with k2 inside its column slice and consistent "
+         "scatter indices for every pattern pair on 2x3.3x2 (quick) up to 3x3.3x3 and 2x4.4x2 block grids. Conformance both "
+         "ways: every tabulated matrix goes through the real batched solvers (must raise iff the spec says not PD; ulp "
+         "distance to the exact fractions otherwise), real BSR/BSC tensors are built from the spec's index arrays and the "
+         "product compared exactly with the sum over the spec's visited list and with the dense product computed by TLC; "
+         "CG runs (dense/CSR/COO/BSR, guess, preconditioner, scaled systems) are judged on |b-Ax|<=tol|b|, b=0 -> 0 and "
+         "convergence within the exact-CG iteration count; orders 4..40, batch shapes and condition numbers to 1e8 are "
+         "sampled against exact rational references.",
+    note="Trusted: TLC; the harness' exact Fraction arithmetic for ulp distances/residuals (the expected fractions are "
+         "re-derived by TLC in every event); torch tensor construction/to_dense. Rounding ties of Cholesky (exact zero pivot "
+         "reached through inexact square roots) are recorded, not judged; unsupported layout pairs may fail loudly; LSTSQ on "
+         "rank-deficient input is judged on the normal equations only; orders 4..40 are sampled (Mode R), not exhaustive. "
+         "Finds on the unchanged tree: Cholesky ignores the factorisation status (keys cholesky/nonpd_not_raised/*, "
+         "big/chol/nonpd_not_raised/indefinite); repair in notes/C10.fix.diff.")
+
+CHECKS["C11"] = dict(
+    cat="model_checking", ref="DESIGN.md §5 C11",
+    technique="TLA+ spec Convert.tla (branch table of the matrix->quaternion extraction, scale extraction, check=True tolerance "
+              "classes, Euler composition over exact dyadics) model-checked by TLC; trace validation (ConvertTrace.tla) of real "
+              "mat2*/from_matrix/euler2SO3/euler results, exact on the lattice and in integer ulps near pi",
+    text="TLA+ design Convert.tla (exact dyadics): mat2SO3's mask table and masked sums transcribed from the code; TLC: table total/"
+         "exclusive, all four branches on the 12 tetrahedral rotations, exact round trip Rot(FromMatrix(M)) = M on them and numerator "
+         "round trip on all 24 cube rotations, from_matrix x 4 types x 3 layouts x integer translations x scales 2^k (det = s^3), "
+         "rejection of scaled rotations / reflections, check=True classes proved from a polynomial model of R + 10^-k E against "
+         "rtol = atol = 10^-E, Euler composition / inverse / round trip on quarter turns. Binding ConvertTrace.tla: Mode E on the "
+         "lattice through the real mat2*/from_matrix/matrix()/euler()/euler2SO3 (TLC recomputes from the logged input), Mode R "
+         "(angles pi -+ 1e-k about coordinate/diagonal/random axes in every branch region, scales 1e-3..1e3, batch shapes, Euler "
+         "round trip up to twice the gimbal eps, rejection classes) judged by TLC from integer eps measures against 60-digit references.",
+    note="quick 64 s (19.7 k design states, 397 traces / 5.9 k events), thorough 6 min (115 k states, 2 k traces / 38 k events). "
+         "Finds: mat2Sim3 / mat2RxSO3 raise RuntimeError on valid inputs for batch shapes like (2,3) (zeros(shape[:-2]) vs s of shape "
+         "(*,1)); repair in notes/C11.fix.diff (zeros_like). Unjudged: perturbations within two decades of the tolerance, the "
+         "gimbal band |sin pitch| >= 1 - 4e-4, empty batches.")
+
+CHECKS["C17"] = dict(
+    cat="exploration", ref="DESIGN.md §5 C17",
+    technique="TLA+ spec Align.tla (exact moments, SSR and ranking of the 24 cube-rotation candidates of rigid / similarity "
+              "alignment on integer clouds; properness; reflection lemma) model-checked by TLC over enumerated clouds x "
+              "lattice transforms x noise; trace validation (AlignTrace.tla) of what the real svdtf/svdstf/ICP/EPnP returned; "
+              "spec->code table (AlignGen.tla); independent Kabsch/Umeyama for random instances",
+    text="TLC explores every enumerated integer cloud of 3..6 points (generic, planar, collinear, minimal, duplicated; 553 "
+         "quick / 4 794 thorough) under every lattice transform (12 Hurwitz rotations x integer translation x scale 2^k) and "
+         "integer noise pattern (108k states quick, 3.5M thorough) and checks: exact correspondences give SSR 0 with the true "
+         "translation and scale as the candidate's optimum, uniquely unless the cloud is collinear; the closed forms equal the "
+         "definition residual by residual; the best candidate is bounded by the noise energy; negating a best reflection yields "
+         "the worst proper candidate (the unrepaired design is refuted by a required counterexample); all candidates are proper. "
+         "The real svdtf and svdstf are run on lattice clouds of every class (float64/float32, three batch shapes, exact and "
+         "noisy) and TLC recomputes targets, class, moments and candidate ranking and judges properness, SSR(result) <= best "
+         "candidate SSR (necessary for optimality) and exact reproduction modulo quaternion sign; a TLC-written table of bounds "
+         "(4.9k / 25k rows) is replayed through both functions; random clouds of 3..200 points (noise 0..0.5, all of SO(3), "
+         "scales 0.1..10) are judged against an independent numpy Kabsch/Umeyama in eps units; ICP is judged on mean squared "
+         "closest-point distance before/after and on recovery of exact perturbations inside a constructed basin; EPnP on exact "
+         "projections of 6..100 points with and without refinement.",
+    note="Level exploration: optimality over SO(3) is decided through necessary conditions (finite exact candidate set, "
+         "independent float64 solver), not proved. Trusted: TLC; numpy's SVD in the independent solver; LieTensor.Act (C03) to "
+         "apply a result; IEEE exactness on the lattice. Found: svdtf negates the whole matrix when det = -1 (fix in "
+         "notes/C17.fix.diff).")
+
+CHECKS["C06"] = dict(
+    cat="model_checking", ref="DESIGN.md §5 C06",
+    technique="TLA+ specs Broadcast.tla (lshape broadcasting from the torch rule, index map, result-type table, handled-function "
+              "table), Patching.tla (retain_ltype / func.jacrev as Enter/Step/Raise/Exit/Catch over the three patched torch "
+              "attributes) and Purity.tla model-checked by TLC; trace validation of real calls (BroadcastTrace.tla on top of "
+              "LieExact/LieTrace, PatchingTrace.tla, PurityTrace.tla); spec->code tables (BroadcastGen.tla vs torch itself, "
+              "PatchingGen.tla scripts realised with real nested contexts and faults)",
+    text="TLC checks on all 85x85 lshape pairs of rank<=3 with extents {0,1,2,3} (thorough: rank<=4, 116k pairs, and 614k triples) that "
+         "Bcast is defined iff the documented torch rule allows it, symmetric, idempotent, has unit <<>>, is the least common expansion, "
+         "propagates zero extents, that the index map is total and balanced and that the expand/flatten/kernel/unflatten scheme realises "
+         "it; the table is compared row by row with torch.broadcast_shapes/expand. Every pair x {mul, act3, act4, adj, adjT, retr, add, "
+         "jinvp} and every lshape x {inv, exp, log, matrix, rotation, translation, scale} is run on lattice batches with distinct items "
+         "(4 types, float32/64, equivalent spellings rotated): TLC decides raise-iff-unbroadcastable, lshape, ltype, last dimension, "
+         "dtype, device and recomputes every output item exactly from the operand items chosen by the spec's index map; "
+         "the documented shape-only functions (+ new_empty, Parameter, deepcopy, lview) on 8 ltypes are compared with the same function "
+         "on the plain tensor (ltype kept, identical items). Patching: in every reachable quiescent state of the model (depth<=3, faults "
+         "at every point) the three torch attributes are the originals (the no-finally mutant is rejected); all 464/7718 complete scripts "
+         "of the model are executed with real nested retain_ltype/func.jacrev and three fault classes, and TLC validates the recorded "
+         "`is`-identities (every Exit restores what its Enter found; originals when quiescent; exceptions propagate). Purity: 412 public "
+         "calls (functions, methods, converters, geometry, splines, metric with offsets, kernels/correctors/solvers, optimizers, module "
+         "forwards) on cloned arguments with byte fingerprints before/after compared by TLC. Found and repaired: quat2unit, ape/rpe "
+         "offset and CG initial-guess mutation. 11 code mutants caught, 3 behaviour-preserving refactors pass.",
+    note="Trusted: TLC; LieExact/LieTrace for item values; exactness of IEEE arithmetic on the lattice (outputs snapped within 64 eps); "
+         "CRC-32+shape+dtype fingerprints; CPU only. Not judged: add() when the broadcast lshape differs from the first operand's "
+         "(raises), functions outside the documented handled table, calls that change the last dimension, the stray module attribute "
+         "left by nested retain_ltype.")
+
+CHECKS["C04"] = dict(
+    cat="model_checking", ref="DESIGN.md §5 C04",
+    technique="TLA+ specs LieRing.tla/LieJac.tla (the group formulas over dual numbers on dyadics: value and exact directional "
+              "derivative) with design checks LieJacMC.tla; exact trace validation (LieJacTrace.tla) of Jacobians recorded from six "
+              "autograd entry points on random well-typed programs",
+    text="TLC checks for every lattice element of every group type that the ring-generic transcription of the group formulas agrees "
+         "with LieExact and that the documented per-operator left-perturbation Jacobians (d(XY)/dX = I, d(XY)/dY = Adj X, dInv = "
+         "-Adj(X^-1), dAct/dX = [I, -[Xp]x, Xp], dAct/dp = sR, dAdj/dX by commutator, dAdj/da = Adj X, dAdjT/da = Adj X^-1, Exp/Log "
+         "first order) equal the dual-number derivation. Random well-typed programs (depth <= 4 quick, 6 thorough) over mul, inv, "
+         "act3, act4, adj, adjT, retr, exp, log, matrix with shared inputs are differentiated by torch.autograd.grad with every unit "
+         "cotangent, .backward(), autograd.functional.jacobian (plain and vectorized), pp.func.jacrev and pp.optim.functional.modjac "
+         "on lattice inputs (float32/64); TLC recomputes value and Jacobian of each program from the logged inputs with dual numbers "
+         "and compares exactly, including the zero slot of group gradients and finiteness at identity / zero.",
+    note="Trusted: TLC; exactness of IEEE arithmetic on the lattice. Exact fragment: Exp/Log/Retr nodes where their series are "
+         "finite (zero rotation and log-scale part). Generic Exp/Log/Jinvp evaluation points are decided numerically by C05 "
+         "(Jinvp, Jr) and the Mode-R part; group-valued program outputs are not generated (no property-defined Jacobian).")
+
 REASON_TODO = "check not built yet in this session (planned, see DESIGN.md §5); nothing is claimed for it"
 
 
